@@ -427,6 +427,25 @@ def sib_block(ctx: Ctx) -> RuleResult:
                           "while thread futures are waited for with a blocking primitive, async-thread nodes that finish cannot be "
                           "observed and other coroutines of the loop are not served (documented limitation: use async-thread for all "
                           "nodes of an AsyncDAG)", norm_src(c2))
+    # the pool's exit waits for the running workers (shutdown(wait=True)): inside the coroutine it may only be reached when nothing is
+    # in flight any more, i.e. after the loop on the normal path - not through `with` / `finally`, which also run when a node failed
+    for n in iter_own_nodes(m.fn.node):
+        if isinstance(n, ast.With) and any(it.context_expr is m.pool_ctor or dotted(it.context_expr) == m.pool_var for it in n.items) \
+                and any(isinstance(x, ast.Await) for st in n.body for x in ast.walk(st)):
+            r.ob(False, {"pool exit on every path of the coroutine": "with"})
+            r.violate(f"{m.fn.short}: the thread pool is left through a blocking `with` around awaits", m.fn.loc(n),
+                      "when a node fails, ThreadPoolExecutor.__exit__ waits inside the coroutine for the sibling nodes still running: the "
+                      "event loop serves nothing else until they finish, and the error surfaces only then", norm_src(n.items[0].context_expr))
+        if isinstance(n, ast.Try) and n.finalbody and any(isinstance(x, ast.Await) for st in n.body for x in ast.walk(st)):
+            for x in (y for st in n.finalbody for y in ast.walk(st)):
+                if isinstance(x, ast.Call) and isinstance(x.func, ast.Attribute) and x.func.attr in ("__exit__", "shutdown") \
+                        and dotted(x.func.value) == m.pool_var:
+                    nowait = any(k.arg == "wait" and isinstance(k.value, ast.Constant) and k.value.value is False for k in x.keywords)
+                    r.ob(nowait, {"pool exit on every path of the coroutine": norm_src(x)})
+                    if not nowait:
+                        r.violate(f"{m.fn.short}: the thread pool is shut down (waiting) in a `finally` around awaits", m.fn.loc(x),
+                                  "when a node fails the coroutine blocks the event loop until the sibling nodes still running finish",
+                                  norm_src(x))
     n_await = sum(1 for n in iter_own_nodes(m.fn.node) if isinstance(n, ast.Await))
     r.ob(n_await >= 1, {"await points in the scheduler": n_await})
     return r
@@ -469,5 +488,58 @@ def sib_ctor(ctx: Ctx) -> RuleResult:
     return r
 
 
-RULES = {"SIB-CTOR": sib_ctor, "SIB-DAG": sib_dag, "SIB-EXEC": sib_exec, "SIB-WAIT": sib_wait, "SIB-DRIVE": sib_drive, "SIB-FWD": sib_fwd,
+def sib_overload(ctx: Ctx) -> RuleResult:
+    """The typing overloads of a function and its implementation state the same default for the same parameter.
+
+    The overloads are what the documentation and the IDE show (`is_sequential: bool = cfg.TAWAZI_IS_SEQUENTIAL`); the
+    implementation's default is what runs. When they differ the configured default silently does not apply."""
+    r = RuleResult("SIB-OVERLOAD")
+    groups = 0
+    for m in ctx.P.modules.values():
+        if m.name.endswith("_twzsa_control"):
+            continue
+        scopes = [m.tree.body] + [c.body for c in m.tree.body if isinstance(c, ast.ClassDef)]
+        for body in scopes:
+            by_name: Dict[str, List[ast.AST]] = {}
+            for st in body:
+                if isinstance(st, (ast.FunctionDef, ast.AsyncFunctionDef)):
+                    by_name.setdefault(st.name, []).append(st)
+            for name, defs in by_name.items():
+                ovs = [d for d in defs if any((dotted(x) or "").split(".")[-1] == "overload" for x in d.decorator_list)]
+                impl = [d for d in defs if d not in ovs]
+                if not ovs or len(impl) != 1:
+                    continue
+                groups += 1
+
+                def defaults(d) -> Dict[str, ast.AST]:
+                    a = d.args
+                    pos = a.posonlyargs + a.args
+                    out = {p_.arg: v for p_, v in zip(pos[len(pos) - len(a.defaults):], a.defaults)}
+                    out.update({p_.arg: v for p_, v in zip(a.kwonlyargs, a.kw_defaults) if v is not None})
+                    return out
+
+                di = defaults(impl[0])
+                for ov in ovs:
+                    a_ = ov.args
+                    discriminators = {p_.arg for p_ in a_.posonlyargs + a_.args + a_.kwonlyargs
+                                      if p_.annotation is not None and "Literal[" in norm_src(p_.annotation)}
+                    for pn, dv in defaults(ov).items():
+                        if isinstance(dv, ast.Constant) and dv.value is Ellipsis:
+                            continue
+                        if pn in discriminators:
+                            continue  # `flag: Literal[True] = True` selects this overload; it is not a statement about the default
+                        if pn not in di:
+                            continue
+                        ok = norm_src(dv) == norm_src(di[pn])
+                        r.ob(ok, {"function": f"{m.name.split('.', 1)[-1]}.{name}", "parameter": pn, "overload": norm_src(dv), "implementation": norm_src(di[pn])})
+                        if not ok:
+                            r.violate(f"{m.name.split('.', 1)[-1]}.{name}: default of '{pn}' differs between the overload and the implementation",
+                                      f"{m.rel}:{impl[0].lineno}", "the overload documents the default; the implementation's default is "
+                                      "what a call without the keyword gets (e.g. the environment's TAWAZI_IS_SEQUENTIAL / TAWAZI_DEFAULT_RESOURCE "
+                                      "no longer applies to plainly decorated functions)", {"overload": norm_src(dv), "implementation": norm_src(di[pn])})
+    r.require(groups >= 2, f"overloaded functions found: {groups} (xn and dag expected)")
+    return r
+
+
+RULES = {"SIB-OVERLOAD": sib_overload, "SIB-CTOR": sib_ctor, "SIB-DAG": sib_dag, "SIB-EXEC": sib_exec, "SIB-WAIT": sib_wait, "SIB-DRIVE": sib_drive, "SIB-FWD": sib_fwd,
          "SIB-FWD-SCHED": sib_fwd_sched, "SIB-BLOCK": sib_block}
